@@ -279,6 +279,9 @@ struct Engine : public vf::Engine {
         PlatformSpecificMalloc = heapMalloc; PlatformSpecificRealloc = heapRealloc; PlatformSpecificFree = heapFree; PlatformSpecificMemCpy = memcpySeam; PlatformSpecificVSNprintf = vsnSeam;
         HEAP.init();
         MemoryLeakWarningPlugin::getGlobalDetector();      // the process-wide default detector must not live in the per-run arena
+        // one out-of-memory round while the default malloc allocator is current: whatever the C-level switch keeps in its file statics from its first use
+        // is then the same object in every process and before every run (a run's outcome must be a function of its own history)
+        setCurrentMallocAllocatorToDefault(); cpputest_malloc_set_out_of_memory(); cpputest_malloc_set_not_out_of_memory(); setCurrentMallocAllocatorToDefault();
     }
 
     // -------------------------------------------------------------------------------------------- generation
@@ -496,7 +499,7 @@ struct Engine : public vf::Engine {
     TestMemoryAllocator* currentFor(int fam) { return fam == 0 ? getCurrentNewAllocator() : (fam == 1 ? getCurrentNewArrayAllocator() : getCurrentMallocAllocator()); }
     // the allocator the model attributes to a family on the global route: the one the history installed for it. Only the oom profile, whose
     // C-level out-of-memory switch replaces the malloc allocator by design, follows whatever is current.
-    TestMemoryAllocator* modelFor(World& W, int fam) { return W.d->profile == "oom" ? currentFor(fam) : W.famAllocator[fam]; }
+    TestMemoryAllocator* modelFor(World& W, int fam) { return W.famAllocator[fam]; }      // what the history installed (never what the library says is current)
 
     // C15 model: does allocation (by allocator `fam`'s current allocator being the failable one) fail?
     bool modelFailable(World& W, const char* file, size_t line) {
@@ -873,7 +876,7 @@ struct Engine : public vf::Engine {
             case H_CLEAR_FAILS: failable.clearFailedAllocs(); W.desig.clear(); W.failIndex = 0; break;
             case H_OOM_SET: cpputest_malloc_set_out_of_memory(); W.oomAll = true; W.oomCountdown = -1; fired("c_out_of_memory"); break;
             case H_OOM_COUNTDOWN: cpputest_malloc_set_out_of_memory_countdown((int)o.a); W.oomCountdown = (int)o.a; if (o.a == 0) W.oomAll = true; fired("c_out_of_memory_countdown"); break;
-            case H_OOM_CLEAR: { cpputest_malloc_set_not_out_of_memory(); W.oomAll = false; W.oomCountdown = -1; for (int k = 2; k < 3; k++) if (W.failableFor[k]) setCurrentMallocAllocator(&failable); } break;
+            case H_OOM_CLEAR: { cpputest_malloc_set_not_out_of_memory(); W.oomAll = false; W.oomCountdown = -1; } break;      // clearing restores what was in place before out-of-memory was switched on (the model's failableFor[] does not change)
             case H_STASH: { GlobalMemoryAllocatorStash st; st.save(); st.restore(); probe("allocator_stash_round_trip"); break; }
             case H_MODE: {      // nothing is allocated or released in between: every block stays tracked, every later call is tracked again
                 if (o.a == 0) { MemoryLeakWarningPlugin::turnOffNewDeleteOverloads(); if (W.threadsafeNow) MemoryLeakWarningPlugin::turnOnThreadSafeNewDeleteOverloads(); else MemoryLeakWarningPlugin::turnOnDefaultNotThreadSafeNewDeleteOverloads(); }
